@@ -14,7 +14,7 @@ from .core import Chooser
 
 ALL_T = [("s", 8), ("u", 8), ("s", 16), ("u", 16), ("s", 32), ("u", 32), ("s", 64), ("u", 64)]
 WIDE_T = [("s", 32), ("u", 32), ("s", 64), ("u", 64)]
-POOL_NAMES = ["a", "b", "x", "t", "out", "mask", "n", "val"]
+POOL_NAMES = ["a", "b", "x", "t", "out", "mask", "n", "val", "arg", "tmp", "res"]
 BOUNDARY = [0, 1, 2, 0x7F, 0x80, 0xFF, 0x7FFF, 0x8000, 0xFFFF, 0x7FFFFFFF, 0x80000000, 0xFFFFFFFF,
             0x7FFFFFFFFFFFFFFF, 0x8000000000000000, 0xFFFFFFFFFFFFFFFF, 0x123456789ABCDEF0, 0xFFFFFFFF00000000, 0x00000000FFFFFF80]
 
@@ -55,7 +55,8 @@ class CallGen:
     def gen_function(self):
         ch = self.ch
         self.n += 1
-        name = f"vf{self.uid}_{self.n}"
+        # registered names are case sensitive C identifiers
+        name = self.ch.choice(["vf", "vF", "satU", "lowBits"], "fname") + f"{self.uid}_{self.n}"
         kind = ch.weighted([("ret_param", 4), ("ret_cast", 3), ("ret_bin", 3), ("local", 3), ("branch", 3), ("postinc", 4),
                             ("nested", 4 if self.order else 0)], "fkind")
         A = self.cfg == "A"
